@@ -17,6 +17,7 @@ TAGGED_CFGS = {'quick': 'MC_Grammar_tagged_q.cfg', 'thorough': 'MC_Grammar_tagge
 EXC_CFGS = {'quick': 'MC_Grammar_exc_q.cfg', 'thorough': 'MC_Grammar_exc_t.cfg'}
 COND_CFGS = {'quick': 'MC_Grammar_cond_q.cfg', 'thorough': 'MC_Grammar_cond_t.cfg'}
 SHIPPED_CFGS = {'quick': 'MC_Grammar_shipped_q.cfg', 'thorough': 'MC_Grammar_shipped_t.cfg'}   # pane.types helpers
+SHIPPED0_CFGS = {'quick': 'MC_Grammar_shipped_q0.cfg', 'thorough': 'MC_Grammar_shipped_t.cfg'}  # (quick: the leaves without contexts)
 
 
 def check(pid):
@@ -68,7 +69,7 @@ def c01(tier: str) -> int:
         (CORE_CFGS, C01_CLAUSES, conv.ev_from_data, {'extra_sp': 0 if tier == 'quick' else 1, 'reverse': True}),
         (CLS_CFGS, C01_CLAUSES, conv.ev_from_data, {'extra_sp': 1, 'reverse': True}),
         (SCALAR_CFGS, C01_CLAUSES, conv.ev_from_data, {'extra_sp': 2}),
-        (SHIPPED_CFGS, C01_CLAUSES, conv.ev_from_data, {}),
+        (SHIPPED0_CFGS, C01_CLAUSES, conv.ev_from_data, {}),
     ], extra=_both(_random_stage(C01_CLAUSES, conv.ev_from_data, 4000, 150000), _repo_tests_stage(C01_CLAUSES)))
 
 
@@ -107,11 +108,11 @@ C03_CLAUSES = {'passes-disagree', 'internal-runtime-error', 'converterror-withou
 def c03(tier: str) -> int:
     return _multi_grammar('C03', tier, [
         (SCALAR_CFGS, C03_CLAUSES, conv.ev_passes, {'extra_sp': 1}),
-        (COND_CFGS, C03_CLAUSES, conv.ev_passes, {}),
+        (COND_CFGS, C03_CLAUSES, conv.ev_passes, {'quick_sample': 2, 'always': _raising_condition}),
         (EXC_CFGS, C03_CLAUSES, conv.ev_passes, {}),
         (TAGGED_CFGS, C03_CLAUSES, conv.ev_passes, {}),
         (CLS_CFGS, C03_CLAUSES, conv.ev_passes, {}),
-        (SHIPPED_CFGS, C03_CLAUSES, conv.ev_passes, {}),
+        (SHIPPED0_CFGS, C03_CLAUSES, conv.ev_passes, {}),
     ], extra=_random_stage(C03_CLAUSES, conv.ev_passes, 3000, 100000))
 
 
@@ -127,8 +128,8 @@ def c09(tier: str) -> int:
         (TAGGED_CFGS, own, conv.ev_snapshot_convert, {}),
         (SCALAR_CFGS, own, conv.ev_snapshot_into, {}),
         (CLS_CFGS, own, conv.ev_snapshot_into, {}),
-        (SHIPPED_CFGS, own, conv.ev_snapshot, {}),
-        (SHIPPED_CFGS, own, conv.ev_snapshot_into, {}),
+        (SHIPPED0_CFGS, own, conv.ev_snapshot, {}),
+        (SHIPPED0_CFGS, own, conv.ev_snapshot_into, {}),
     ], extra=_random_stage(own, conv.ev_snapshot, 5000, 100000))
 
 
@@ -159,7 +160,7 @@ def c06(tier: str) -> int:
         (CLS_CFGS, C06_CLAUSES, conv.ev_fixpoint, {}),
         (UNION_CFGS, C06_CLAUSES, conv.ev_fixpoint, {}),
         (SHIPPED_CFGS, C06_CLAUSES, conv.ev_fixpoint, {}),
-    ])
+    ], extra=_random_stage(C06_CLAUSES, conv.ev_fixpoint, 3000, 80000))
 
 
 _EVENT_MAKERS.update({'passes': conv.ev_passes, 'snapshot': conv.ev_snapshot, 'roundtrip': conv.ev_roundtrip,
@@ -234,6 +235,12 @@ def _multi_grammar(pid: str, tier: str, plans: list, *, extra=None) -> int:
         flt = opts.get('filter')
         if flt:
             tvs = [tv for tv in tvs if flt(*tv)]
+        n = opts.get('quick_sample')
+        if n and tier == 'quick':
+            # the quick tier of a property that only borrows this universe replays every n-th case of it (rotating with
+            # VERIF_SEED) plus the cases the option `always` selects; the thorough tier and the owning property replay all
+            alw = opts.get('always') or (lambda T, v: False)
+            tvs = [tv for i, tv in enumerate(tvs) if (i + engine.seed()) % n == 0 or alw(*tv)]
         st = pipeline.run_events(rep, pipeline.spread_spellings(tvs, opts.get('extra_sp', 0)), owned,
                                  label=f'{pid.lower()}-{maker.__name__}-{len(stats)}', make_event=maker,
                                  reverse=opts.get('reverse', False), child_event=opts.get('child_event'))
@@ -245,12 +252,16 @@ def _multi_grammar(pid: str, tier: str, plans: list, *, extra=None) -> int:
     return rep.finish()
 
 
-def _random_stage(owned: set, maker, quick_n: int, thorough_n: int, child_event=None, depth: int = 4):
-    """code-to-spec: seeded random types/values beyond the constants of the exhaustive configs"""
+def _random_stage(owned: set, maker, quick_n: int, thorough_n: int, child_event=None, depth: int = 4, only=None):
+    """code-to-spec: seeded random types/values beyond the constants of the exhaustive configs
+    (`only`: a predicate on (T, v) selecting the cases of interest out of a four times larger sample)"""
     def extra(rep, stats):
         from . import randgen
         n = quick_n if rep.tier == 'quick' else thorough_n
-        tvs = randgen.cases(1000 + engine.seed(), n, depth)
+        if only is None:
+            tvs = randgen.cases(1000 + engine.seed(), n, depth)
+        else:
+            tvs = [c for c in randgen.cases(1000 + engine.seed(), 4 * n, depth) if only(c[0], c[1])][:n]
         stats['random:' + maker.__name__] = pipeline.run_events(rep, tvs, owned, label=f'{rep.prop.lower()}-rand', make_event=maker,
                                                                reverse=False, child_event=child_event)
         stats['random:' + maker.__name__]['seed'] = 1000 + engine.seed()
@@ -345,11 +356,17 @@ def c04(tier: str) -> int:
         (EXC_CFGS, C04_CLAUSES, _ev_build_case, {'filter': _first_of_type()}),
         (SCALAR_CFGS, C04_CLAUSES, conv.ev_from_data, {}),
         (TAGGED_CFGS, C04_CLAUSES, conv.ev_from_data, {}),
-        (COND_CFGS, C04_CLAUSES, conv.ev_from_data, {}),
-        (SHIPPED_CFGS, C04_CLAUSES, conv.ev_from_data, {}),
+        (COND_CFGS, C04_CLAUSES, conv.ev_from_data, {'quick_sample': 3, 'always': _raising_condition}),
+        (SHIPPED0_CFGS, C04_CLAUSES, conv.ev_from_data, {}),
         (EXC_CFGS, C04_CLAUSES, conv.ev_from_json, {}),
-        (SHIPPED_CFGS, C04_CLAUSES, conv.ev_from_json, {}),
+        (SHIPPED0_CFGS, C04_CLAUSES, conv.ev_from_json, {}),
     ], extra=extra)
+
+
+def _raising_condition(T, v) -> bool:
+    """a condition whose predicate can raise for some value (user predicates, or a numeric one on a non-number)"""
+    js = json.dumps(T)
+    return '"uraise"' in js or '"even"' in js or v['k'] not in ('int', 'float', 'bool')
 
 
 def _first_of_type():
@@ -570,7 +587,12 @@ def c15(tier: str) -> int:
         (CLS_CFGS, C15_CLAUSES, conv.ev_from_data, {}),
         (CLS_CFGS, C15_CLAUSES, conv.ev_roundtrip, {}),
         (CLS_CFGS, C15_CLAUSES, conv.ev_tree, {}),
-    ])
+    ], extra=_both(_random_stage(C15_CLAUSES, conv.ev_from_data, 2500, 60000, only=_has_class),
+                   _random_stage(C15_CLAUSES, conv.ev_roundtrip, 1500, 40000, only=_has_class)))
+
+
+def _has_class(T, v) -> bool:
+    return '"cls"' in json.dumps(T)
 
 
 @check('C16')
